@@ -12,9 +12,9 @@ RULE = ("breadth-first search over histories mixing valid add_* events with reje
         "outside an enumeration, reference of the wrong class, bad cast_dtype, non-string name, duplicate origin "
         "reference, rejected assignment to an existing object, for several object types; rejection before or after "
         "the object registered itself); a static family rejects one call of EVERY object kind (21) before the first / "
-        "after one / twice, in default and named sets; oracle: the file equals byte for byte the file of the same history with the "
+        "after one / twice / as the very first call on the logical file / as an assignment to an existing object, in default and named sets; a call on a second logical file refused because its set belongs to the first; oracle: the file equals byte for byte the file of the same history with the "
         "rejected events deleted, and every 'rejected' event really raised. Separate family: failing writes (missing "
-        "dataset, bad window, unsupported dtype, 3-D data, too small chunk, directory target; after partial set-up "
+        "dataset, bad window, unsupported dtype, 3-D data, too small chunk, directory target, failures inside the frame set-up; rejected setter calls and rejected add_channel with data as steps; after partial set-up "
         "from wrong-shaped data) followed by a repaired write, compared with a fresh specification; non-trivial = "
         "history containing at least one rejected event whose files were compared")
 ASSUMPTIONS = ["differential oracle: no hand-written expectation", "completion suffix (origin/channel/frame added "
